@@ -97,4 +97,73 @@ PROPS = {
               "every token; the generating value is the oracle; non-trivial = the value has at least one container; distinct = distinct JSON texts"),
         builds=[('rel', 1.0, 1.0)], must_observe=['json_texts_matching', 'style_compact', 'style_pretty-tab', 'style_random-ws', 'deeply_nested_values'],
         assumptions=COMMON_ASSUME + ["\\u escapes are generated only for non-surrogate code points; astral characters are written raw", "integers beyond 64 bits are expected as floats of the same value"]),
+    'C20': dict(
+        rule=("constructed (borrowed and owned strings) and loaded mappings with string, integer, float, null, boolean and collection keys, including non-string keys "
+              "whose text equals the probe; probes drawn from the keys, their type-like variants and absent strings; 4 node types; oracle = linear scan for a key "
+              "that is a resolved string equal to the probe; non-trivial = mapping with at least 2 keys; distinct = distinct (mapping, probe)"),
+        builds=[('rel', 1.0, 1.0)], must_observe=['lookups', 'int_lookups', 'loaded_mappings', 'eq_hash_pairs'],
+        assumptions=COMMON_ASSUME + ["loaded variants are obtained through the emitter and only used when the emitted text loads back to the model (C09's subject)"]),
+    'C15': dict(
+        rule=("pairs and chains (up to 4) of streams that are accepted alone (model-rendered streams, yaml-test-suite documents, hand-written state-heavy streams, "
+              "accepted soups), joined by a document end marker line; all ordered pairs of the hand-written list are enumerated; the H3 hook reports the scanner "
+              "configuration at every document marker; non-trivial = at least 2 parts and one collection; distinct = distinct joined texts"),
+        builds=[('rel', 1.0, 1.0)], must_observe=['concatenations', 'documents_compared', 'loads_compared', 'h3_events'],
+        assumptions=COMMON_ASSUME + ["parts that are rejected alone, do not end with a line break, start with a BOM or contain NUL are skipped, not asserted"]),
+    'C16': dict(
+        rule=("document sequences with 0-3 %TAG lines over the handles ! !! !e! !a-b! !x1! and local/global prefixes (with %-escapes), optional %YAML / reserved "
+              "directives in random order, tags of every spelling (named, secondary, local, verbatim, non-specific; suffixes with 1-4 byte %-escapes and URI "
+              "punctuation) on scalars, collections and empty nodes, 1-3 documents, keep_tags on/off, and injected faults (undeclared handle, duplicate handle, "
+              "handle declared only in an earlier document); model = the property's own sentence; non-trivial = at least one tag; distinct = distinct (text, keep_tags)"),
+        builds=[('rel', 1.0, 1.0)],
+        must_observe=['tags_resolved_as_modelled', 'rejected_as_required', 'keep_tags_on', 'keep_tags_off', 'injected_UndeclaredHandle', 'injected_DuplicateDirective', 'injected_DeclaredInEarlierDocument'],
+        assumptions=COMMON_ASSUME + ["tags are compared as prefix+suffix concatenation"]),
+    'C18': dict(
+        rule=("texts starting with an ASCII character (every length 0..64 in ASCII / Latin / CJK / astral mixes, documents up to ~4k chars; a few starting with a "
+              "BOM) x 6 encodings x 4 traps, compared with loading the text directly; all byte strings of length <= L over {00,0A,20,2D,41,80,C3,E4,FE,FF} x 4 traps; "
+              "random, truncated and garbled encodings; every decode runs under the H1 progress monitor; non-trivial = non-ASCII / non-UTF-8-clean / UTF-16 input; "
+              "distinct = distinct byte strings or texts"),
+        builds=[('rel', 1.0, 1.0)],
+        must_observe=['decodes', 'h1_events', 'decodes_equal_to_direct_load', 'wellformed_inputs', 'malformed_inputs', 'encoding_utf-16le', 'encoding_utf-16be+bom'],
+        assumptions=COMMON_ASSUME + ["which encoding applies to a byte string is taken from the documented detection rule (BOM, else NUL pattern of the first two bytes, else UTF-8)",
+                                     "a decode-loop iteration that neither consumes input nor grows the output is reported by the H1 hook and aborted"]),
+    'C11': dict(
+        rule=("one child process per scenario (shape x depth x API): shapes '- ' per level, '-' / 'k:' / alternating per line with growing indentation, '? ', '[', "
+              "'{a: ', '{\"a\":', block-then-flow; depths 10..10^4 (quick) / 10^5 (thorough), capped at 3000 for the shapes whose text grows quadratically; APIs iterate, "
+              "push, load (Yaml / YamlOwned / MarkedYaml) + drop, clone, ==, hash, emit, and load on a thread with an 8 MiB stack; the observer is the child's exit "
+              "status plus breadcrumbs, and a stack probe inside the receiver / writer callbacks; non-trivial = depth >= 100; distinct = distinct (shape, depth, API)"),
+        builds=[('rel', 1.0, 1.0), ('chk', 1.0, 1.0)], must_observe=['scenarios', 'stack_probes', 'scenarios_succeeding', 'scenarios_ending_in_error_value'],
+        timeout={'quick': 1500, 'thorough': 5400},
+        assumptions=COMMON_ASSUME + ["the main thread of a child has the default 8 MiB stack (ulimit -s)", "depth is capped at 10^5; 'fits in memory' beyond that is not explored"]),
 }
+
+TECH = {
+    'C01': ('panic capture, counting-input work bound, H2 scanner-progress hook, contract-checking inputs, chk (overflow/debug-assert) build, process-exit observer', '3 C01'),
+    'C02': ('online pushdown trace checker of the event grammar + anchor table, pull and push', '3 C02'),
+    'C03': ('reference-model oracle: spec-derived renderer of random abstract trees, differential against delivered events; yaml-test-suite variants', '3 C03'),
+    'C04': ('presentation generated from the target string (value known by construction), independent fold/unescape inverse as oracle self-test', '3 C04'),
+    'C05': ('reference function block_value() from YAML 1.2.2 8.1 vs delivered block scalar value', '3 C05'),
+    'C06': ('fault injection into well-formed streams by 14 spec-derived damage operators; oracle: an Err must be observed', '3 C06'),
+    'C07': ('tee receiver logging the events given to the real loader + independent fold of the log; H4 loader-stack hook', '3 C07'),
+    'C08': ('exhaustive small-scope enumeration against hand-written recognisers of the core schema regular expressions', '3 C08'),
+    'C09': ('round-trip monitor: dump -> load -> compare -> dump again over generated value trees, exhaustive strings up to length L', '3 C09'),
+    'C10': ('differential monitor over 8 input back-ends incl. contract-checking inputs at other buffer capacities', '3 C10'),
+    'C11': ('child-process exit-status observer per nesting scenario + stack-depth probe inside library callbacks', '3 C11'),
+    'C12': ('independent recount of line/column from the input, span nesting and scalar-text rules, tee-logged spans vs marked nodes', '3 C12'),
+    'C13': ('generated JSON value is the oracle; serialisers with random insignificant whitespace', '3 C13'),
+    'C14': ('metamorphic differential: LF vs CRLF vs CR variants of the same input', '3 C14'),
+    'C15': ('metamorphic differential: documents of A and B alone vs A ... B joined; H3 scanner-state hook at document markers', '3 C15'),
+    'C16': ('reference model of tag resolution (the property sentence executed literally) over generated directive sets, with injected faults', '3 C16'),
+    'C17': ('call-history checker: exhaustive / random peek-next histories against plain iteration; push vs pull differential', '3 C17'),
+    'C18': ('H1 decode-loop progress hook (aborts a spin), differential decode-vs-direct-load over 6 encodings, trap-behaviour oracle', '3 C18'),
+    'C19': ('differential over 4 node types and deferred-vs-eager resolution through canonical trees', '3 C19'),
+    'C20': ('differential of 6 lookup paths against a linear-scan reference; Eq => Hash monitor', '3 C20'),
+}
+for k, (t, ref) in TECH.items():
+    if k in PROPS:
+        PROPS[k]['technique'] = 'runtime monitoring: ' + t
+        PROPS[k]['design_ref'] = 'DESIGN.md section ' + ref
+        PROPS[k]['level_text'] = ('exploration by runtime monitoring: the real code is executed on generated / enumerated inputs under an oracle that is valid for every input; '
+                                  'the verdict is "held on what was observed" with measured coverage (finite small scopes are exhausted and listed under exhaustive_subspaces); '
+                                  'a universally quantified property over unbounded inputs cannot be settled by a finite run, so exploration is the honest level')
+        PROPS[k]['level_note'] = ('trusts: the harness oracles and reference functions (written from YAML 1.2.2 / the property text, not from the code under test), rustc/cargo, '
+                                  'and that /repo builds with feature verif-hooks; covers only the executions this run produced; known findings in /verif/known_findings.json are reported as KNOWN-FINDING')
